@@ -181,7 +181,7 @@ var noopHandler = http.HandlerFunc(func(http.ResponseWriter, *http.Request) {})
 // Construction routes. The documentation promises that all of them yield the same middleware (C06, C08, C09);
 // the HTTP-level checks therefore do not only look at freshly built middlewares but also at ones that carry
 // state left behind by earlier calls.
-const nRoutes = 10
+const nRoutes = 12
 
 var routeNames = [nRoutes]string{
 	"NewMiddleware(cfg)",
@@ -194,6 +194,8 @@ var routeNames = [nRoutes]string{
 	"NewMiddleware(other); h := Wrap(handler); requests through h; Reconfigure(&cfg); later requests still go through h",
 	"new(Middleware); h := Wrap(handler) while passthrough; requests through h; Reconfigure(&cfg); later requests still go through h",
 	"NewMiddleware(cfg); debug mode toggled to the opposite value; requests (and Config()) in that mode; debug mode toggled back",
+	"NewMiddleware(cfg with max-age changed); requests; Reconfigure(&cfg); Reconfigure(&cfg) once more with the same pointer",
+	"NewMiddleware(cfg with one more entry in every list); requests; Reconfigure(&cfg)",
 }
 
 // forward lets a handler obtained from Wrap early serve a wrapped handler chosen later (same w and r are passed on).
@@ -374,6 +376,40 @@ func buildVia0(route int, lit CfgLit, debug bool, early **earlyWrap, extra ...vl
 			m.SetDebug(debug)
 			warmUp(m, extra...)
 			err = m.Reconfigure(m.Config())
+		}
+	case 10, 11:
+		// the middleware first holds a near neighbour of the configuration: a short-cut in Reconfigure that compares the
+		// request with the current state, or reuses parts of it, must not mistake one for the other
+		near := lit
+		if route == 10 {
+			near.MaxAge = 600
+			if lit.MaxAge == 600 {
+				near.MaxAge = 0
+			}
+		} else {
+			near.Origins = append(append([]string(nil), lit.Origins...), "https://zz-extra.example")
+			if len(lit.Methods) > 0 {
+				near.Methods = append(append([]string(nil), lit.Methods...), "ZZEXTRA")
+			}
+			if len(lit.RequestHeaders) > 0 {
+				near.RequestHeaders = append(append([]string(nil), lit.RequestHeaders...), "X-Zz-Extra")
+			}
+			if len(lit.ResponseHeaders) > 0 {
+				near.ResponseHeaders = append(append([]string(nil), lit.ResponseHeaders...), "X-Zz-Extra-R")
+			}
+		}
+		var e0 error
+		if m, e0 = cors.NewMiddleware(near.Config()); e0 != nil {
+			m = new(cors.Middleware) // this configuration has no such neighbour
+		}
+		m.SetDebug(debug)
+		warmUp(m, append([]vlib.Req{{Method: "GET", Hdr: map[string][]string{"Origin": {"https://zz-extra.example"}}}}, extra...)...)
+		err = m.Reconfigure(&cfg)
+		if err == nil && route == 10 {
+			err = m.Reconfigure(&cfg)
+		}
+		if e0 != nil && debug {
+			m.SetDebug(true) // the zero value ignored the earlier SetDebug
 		}
 	default:
 		return nil, fmt.Errorf("unknown route %d", route)
